@@ -109,7 +109,7 @@ async def run_script(job):
     pool = SimpleTaskPool(work, pool_size=3, name="sock")
     pool.start(1)
     await asyncio.sleep(0)
-    tmp = tempfile.mkdtemp(prefix="ctlsock")
+    tmp = job.get("tmpdir") or tempfile.mkdtemp(prefix="ctlsock")      # (made and removed by the parent process, see execute)
     path = os.path.join(tmp, "s.sock")
     port = None
     server = None
@@ -405,16 +405,21 @@ def run_in_this_process(job):
 
 def execute(job, timeout=75):
     """Run one script in a child process (hard timeout), return its trace."""
+    import shutil
+    tmp = tempfile.mkdtemp(prefix="ctlsock")        # short path: Unix socket addresses are limited to ~100 characters
     try:
-        p = subprocess.run([sys.executable, "-W", "ignore", os.path.abspath(__file__), "-"], input=json.dumps(job), text=True,
-                           stdout=subprocess.PIPE, stderr=subprocess.PIPE, timeout=timeout, env=dict(os.environ, VERIF_REPO=REPO))
-    except subprocess.TimeoutExpired:
-        # the whole process stopped responding (e.g. the event loop spins): an observation, not a harness failure
-        return {"ok": True, "trace": [{"e": "init", "ps": "?", "pobs": ""}, {"e": "hung", "secs": timeout, "pobs": ""}]}
-    try:
-        return json.loads(p.stdout.splitlines()[-1])
-    except Exception:
-        return {"ok": False, "err": "child failed: rc=%s %s" % (p.returncode, p.stderr[-400:]), "tb": p.stderr[-2000:], "trace": []}
+        try:
+            p = subprocess.run([sys.executable, "-W", "ignore", os.path.abspath(__file__), "-"], input=json.dumps(dict(job, tmpdir=tmp)), text=True,
+                               stdout=subprocess.PIPE, stderr=subprocess.PIPE, timeout=timeout, env=dict(os.environ, VERIF_REPO=REPO))
+        except subprocess.TimeoutExpired:
+            # the whole process stopped responding (e.g. the event loop spins): an observation, not a harness failure
+            return {"ok": True, "trace": [{"e": "init", "ps": "?", "pobs": ""}, {"e": "hung", "secs": timeout, "pobs": ""}]}
+        try:
+            return json.loads(p.stdout.splitlines()[-1])
+        except Exception:
+            return {"ok": False, "err": "child failed: rc=%s %s" % (p.returncode, p.stderr[-400:]), "tb": p.stderr[-2000:], "trace": []}
+    finally:
+        shutil.rmtree(tmp, ignore_errors=True)
 
 
 if __name__ == "__main__":
